@@ -288,4 +288,4 @@ def _obligations():
 
 
 def obligations():
-    return _obligations() + [converters_obligation([("cryomotl.emmotl2stopgap", {"output_motl_path": K(None)}, {})]), constructors_obligation(['cryomotl.StopgapMotl']), labels_obligation("C04"), selectors_obligation("C04"), effects_obligation("C04"), plumbing_obligation("C04"), overrides_obligation("C04"), options_obligation("C04"), handlers_obligation("C04")]
+    return _obligations() + [converters_obligation([("cryomotl.emmotl2stopgap", {"output_motl_path": K(None)}, {})]), constructors_obligation(['cryomotl.StopgapMotl']), labels_obligation("C04"), selectors_obligation("C04"), mutations_obligation("C04"), effects_obligation("C04"), plumbing_obligation("C04"), overrides_obligation("C04"), options_obligation("C04"), handlers_obligation("C04")]
